@@ -34,6 +34,10 @@ package utxo
 //@   property C02
 //@   uses natNonneg natCanon
 //@   ensures inputs_equal_outputs: result == nil ==> sumInTo(tx, len(tx.TxInputs)) == sumOutTo(tx, len(tx.TxOutputs)) || (tx.Coinbase && sumInTo(tx, len(tx.TxInputs)) == 0)
+// A coinbase transaction mints: every output of it is added to the total supply, and nobody
+// signs it. It therefore consumes NOTHING - with inputs it would move outputs unsigned and the
+// total would exceed what is unspent.
+//@   ensures coinbase_consumes_nothing: result == nil && tx.Coinbase ==> len(tx.TxInputs) == 0
 //@   ensures no_output_spent_twice: result == nil ==> (forall a int, b int :: 0 <= a && a < b && b < len(tx.TxInputs) ==> inKey(tx, a) != inKey(tx, b))
 // C03: an input is counted only after it was found (cache or table), its stored
 // amount equals the declared one, and it is not frozen at the current height.
